@@ -41,6 +41,11 @@ func layoutKnown(want, got string) string {
 				j++
 			}
 			id := hunkKnown(wl, gl, i, j)
+			if id == "" && ids["C01-F1-block-comment-abutting-package"] && alignmentOnly(wl[i:j], gl[i:j]) {
+				// the re-flowed comment changes the width of the package line, which shifts the alignment
+				// column of trailing comments in the same section: part of F1's effect
+				id = "C01-F1-block-comment-abutting-package"
+			}
 			if id == "" || !core.IsKnown(id) {
 				return ""
 			}
@@ -280,4 +285,14 @@ func hunkShape(want, got string) string {
 		i = j
 	}
 	return strings.Join(out, ";")
+}
+
+// alignmentOnly: the lines differ only in the number of blanks inside them (not in indentation).
+func alignmentOnly(a, b []string) bool {
+	for i := range a {
+		if indentOf(a[i]) != indentOf(b[i]) || strings.Join(strings.Fields(a[i]), " ") != strings.Join(strings.Fields(b[i]), " ") {
+			return false
+		}
+	}
+	return true
 }
